@@ -37,6 +37,8 @@ pub struct Case {
 }
 
 static ARMED: AtomicBool = AtomicBool::new(false);
+/// number of accepted connections whose setup still has to fail (burst sub-check)
+static BURST_FAIL_LEFT: AtomicU64 = AtomicU64::new(0);
 static HOOK_CALLS: AtomicU64 = AtomicU64::new(0);
 
 fn install_hook() {
@@ -44,6 +46,9 @@ fn install_hook() {
     ONCE.call_once(|| {
         routinator::verif::set_fail_rtr_setup(Some(Arc::new(|| {
             HOOK_CALLS.fetch_add(1, Ordering::SeqCst);
+            if BURST_FAIL_LEFT.fetch_update(Ordering::SeqCst, Ordering::SeqCst, |v| v.checked_sub(1)).is_ok() {
+                return true;
+            }
             ARMED.swap(false, Ordering::SeqCst)
         })));
     });
@@ -191,6 +196,143 @@ fn evaluate(case: &Case, p: &Params, info: &mut CaseInfo) -> Verdict {
 /// `fault_free_share`: share of sequences without any failed setup (accepted keepalive values, no hook
 /// fault); raised while the stall finding is listed so that the bulk search still exercises complete
 /// sequences of served connections.
+/// A burst of connections already queued when the listener starts; the first `failing` of them
+/// (in accept order) have their setup failed; afterwards `followers` fresh connections are made.
+#[derive(Serialize, Deserialize, Clone, Debug)]
+pub struct BurstCase {
+    pub burst: usize,
+    pub failing: usize,
+    pub followers: usize,
+    /// fail every setup through a keepalive value the kernel rejects instead of the hook
+    pub natural: bool,
+}
+
+fn evaluate_burst(case: &BurstCase, p: &Params, info: &mut CaseInfo) -> Verdict {
+    use std::io::{Read, Write};
+    install_hook();
+    let natural = case.natural && !kernel_accepts_keepalive(100_000);
+    let failing = if natural { case.burst } else { case.failing.min(case.burst) };
+    info.nt(failing >= 1);
+    info.class(format!("burst={}", match case.burst { 0..=3 => "1-3", 4..=8 => "4-8", 9..=16 => "9-16", _ => "17+" }));
+    info.class(format!("failing_in_burst={}", match failing { 0 => "0", 1..=7 => "1-7", 8..=15 => "8-15", _ => "16+" }));
+    info.class(if natural { "fault=keepalive_rejected" } else { "fault=hook" });
+    let t = p.t;
+    let control = match RtrTestServer::start(1, Some(Duration::from_secs(60)), false) {
+        Ok(s) => s,
+        Err(e) => return Verdict::Dropped(format!("control_start:{}", truncate(&e, 40))),
+    };
+    BURST_FAIL_LEFT.store(if natural { 0 } else { failing as u64 }, Ordering::SeqCst);
+    ARMED.store(false, Ordering::SeqCst);
+    let subject = match RtrTestServer::start_with_backlog(1, if natural { Some(Duration::from_secs(100_000)) } else { Some(Duration::from_secs(60)) }, false, case.burst) {
+        Ok(s) => s,
+        Err(e) => {
+            BURST_FAIL_LEFT.store(0, Ordering::SeqCst);
+            return Verdict::Dropped(format!("listener_start:{}", truncate(&e, 40)));
+        }
+    };
+    // Reset Query v1 on every queued connection, then wait for "answered" or "closed" on each
+    let query: [u8; 8] = [1, 2, 0, 0, 0, 0, 0, 8];
+    let deadline = Instant::now() + t * 4;
+    let mut states: Vec<&'static str> = Vec::new();
+    for s in subject.preconnected.iter() {
+        let mut s = s;
+        let _ = s.set_read_timeout(Some(Duration::from_millis(50)));
+        let _ = s.write_all(&query);
+    }
+    let mut pending: Vec<usize> = (0..subject.preconnected.len()).collect();
+    let mut got: Vec<Vec<u8>> = vec![Vec::new(); subject.preconnected.len()];
+    states.resize(subject.preconnected.len(), "pending");
+    while !pending.is_empty() && Instant::now() < deadline {
+        pending.retain(|&i| {
+            let mut s = &subject.preconnected[i];
+            let mut buf = [0u8; 4096];
+            match s.read(&mut buf) {
+                Ok(0) => {
+                    states[i] = "closed";
+                    false
+                }
+                Ok(n) => {
+                    got[i].extend_from_slice(&buf[..n]);
+                    // End of Data PDU type 7 (or Error Report type 10) ends the answer
+                    let mut off = 0;
+                    let mut done = false;
+                    while off + 8 <= got[i].len() {
+                        let len = u32::from_be_bytes([got[i][off + 4], got[i][off + 5], got[i][off + 6], got[i][off + 7]]) as usize;
+                        if len < 8 || off + len > got[i].len() {
+                            break;
+                        }
+                        if got[i][off + 1] == 7 || got[i][off + 1] == 10 {
+                            done = true;
+                        }
+                        off += len;
+                    }
+                    if done {
+                        states[i] = "answered";
+                    }
+                    !done
+                }
+                Err(e) if e.kind() == std::io::ErrorKind::WouldBlock || e.kind() == std::io::ErrorKind::TimedOut => true,
+                Err(_) => {
+                    states[i] = "closed";
+                    false
+                }
+            }
+        });
+    }
+    BURST_FAIL_LEFT.store(0, Ordering::SeqCst);
+    let lo: std::net::IpAddr = "127.0.0.1".parse().unwrap();
+    let control_ok = |bound: Duration| -> bool {
+        control.rt.block_on(async {
+            match RtrClient::connect_from(lo, control.ports[0]).await {
+                Ok(mut c) => matches!(c.reset_query(1, bound).await, Exchange::Answered { error_code: None, .. }),
+                Err(_) => false,
+            }
+        })
+    };
+    let closed = states.iter().filter(|s| **s == "closed").count();
+    let answered = states.iter().filter(|s| **s == "answered").count();
+    let unserved = states.iter().filter(|s| **s == "pending").count();
+    let what = format!("burst of {} queued connections, {} with a failing setup ({}): {} closed, {} answered, {} neither after {:?}", case.burst, failing, if natural { "keepalive rejected by the kernel" } else { "hook" }, closed, answered, unserved, t * 4);
+    if unserved > 0 {
+        if !control_ok(t / 2) {
+            return Verdict::Dropped("control_slow".into());
+        }
+        return Verdict::fail("C19/burst/connection-unserved-after-failed-setups", format!("{} although the fault-free control listener answered within {:?}", what, t / 2));
+    }
+    if closed != failing || answered != case.burst - failing {
+        return Verdict::Dropped(format!("fault_attribution_differs:{}closed/{}answered", closed, answered));
+    }
+    // the listener must still serve fresh connections
+    for k in 0..case.followers {
+        let ex = subject.rt.block_on(async {
+            match RtrClient::connect_from(lo, subject.ports[0]).await {
+                Ok(mut c) => {
+                    let first = c.reset_query(1, t).await;
+                    if first == Exchange::Timeout {
+                        c.read_answer(t * 3).await
+                    } else {
+                        first
+                    }
+                }
+                Err(e) => Exchange::Io(e),
+            }
+        });
+        let ok = if natural { ex == Exchange::Closed } else { matches!(ex, Exchange::Answered { error_code: None, .. }) };
+        match ex {
+            _ if ok => {}
+            Exchange::Io(e) => return Verdict::Dropped(format!("client_io:{}", truncate(&e, 40))),
+            Exchange::Timeout => {
+                if !control_ok(t / 2) {
+                    return Verdict::Dropped("control_slow".into());
+                }
+                return Verdict::fail("C19/burst/listener-dead-after-burst", format!("{}; follower {} of {} was neither answered nor closed within {:?} although the control listener answered", what, k + 1, case.followers, t * 4));
+            }
+            other => return Verdict::Dropped(format!("unexpected_exchange:{:?}", other).chars().take(60).collect()),
+        }
+    }
+    Verdict::Pass
+}
+
 fn strategy(keepalives: Vec<Option<u64>>, accepted: Vec<Option<u64>>, fault_free_share: u32) -> impl Strategy<Value = Case> {
     let conn = (prop::bool::weighted(0.3), 0u8..=2).prop_map(|(fail, version)| Conn { fail, version });
     let good = (0u8..=2).prop_map(|version| Conn { fail: false, version });
@@ -203,10 +345,16 @@ fn strategy(keepalives: Vec<Option<u64>>, accepted: Vec<Option<u64>>, fault_free
 pub fn run(ctx: &Ctx, rep: &mut Report, replay: Option<&serde_json::Value>) {
     let t = Duration::from_millis(ctx.tier.pick(1000, 3000));
     let p = Params { t };
-    rep.rule("sequences of 3-12 sequential RTR client connections (Reset Query, versions 0-2) to a real in-process rtr_listener; a generated subset of connections has its setup failed through the verif hook, or the configured rtr-tcp-keepalive (off, 1, 60, 7200, 32767, 32768, 100000, 2^32-1, 2^32, 2^64-1) is one the kernel rejects so that every setup fails; whether the kernel accepts a value is probed with the same socket options; non-trivial = some connection follows one whose setup failed; distinct by serialised case");
+    rep.rule("sequences of 3-12 sequential RTR client connections (Reset Query, versions 0-2) to a real in-process rtr_listener; a generated subset of connections has its setup failed through the verif hook, or the configured rtr-tcp-keepalive (off, 1, 60, 7200, 32767, 32768, 100000, 2^32-1, 2^32, 2^64-1) is one the kernel rejects so that every setup fails; whether the kernel accepts a value is probed with the same socket options; non-trivial = some connection follows one whose setup failed; plus bursts of 1-40 connections that are already queued in the accept backlog when the listener task is first polled, of which the first k (or all, via a rejected keepalive) fail their setup, followed by 1-2 fresh connections; distinct by serialised case");
     rep.assume(format!("bounded-wait liveness: a connection that is neither answered nor closed within {:?} (4 x T) while a fault-free control listener in the same process answers within {:?} counts as not served; slower cases are dropped, not judged", t * 4, t / 2));
     rep.assume("connections are made one after the other, so the hook's decision applies to exactly the connection just opened; this is confirmed per connection (an answered connection that should have failed is dropped as fault_not_applied)");
     if let Some(v) = replay {
+        let tv: Tagged<serde_json::Value> = serde_json::from_value(v.clone()).expect("replay");
+        if tv.sub == "burst" {
+            let c: BurstCase = serde_json::from_value(tv.case).expect("case");
+            run_case(ctx, rep, "burst", &c, |c, i| evaluate_burst(c, &p, i));
+            return;
+        }
         let tg: Tagged<Case> = serde_json::from_value(v.clone()).expect("replay");
         run_case(ctx, rep, "seq", &tg.case, |c, i| evaluate(c, &p, i));
         return;
@@ -237,6 +385,14 @@ pub fn run(ctx: &Ctx, rep: &mut Report, replay: Option<&serde_json::Value>) {
     }
     if rep.violated() {
         return;
+    }
+    // bursts: connections already queued when the listener is first polled, many setups failing back to back
+    if !exclude {
+        let burst = (prop::sample::select(vec![1usize, 2, 3, 7, 8, 9, 12, 16, 17, 24, 40]), 0usize..=40, 1usize..=2, prop::bool::weighted(0.3)).prop_map(|(burst, failing, followers, natural)| BurstCase { burst, failing: failing.min(burst), followers, natural });
+        run_prop(ctx, rep, "burst", ctx.tier.pick(40, 600), burst, |c, i| evaluate_burst(c, &p, i));
+        if rep.violated() {
+            return;
+        }
     }
     // directed representatives of the listed shape, every run
     let c = |keepalive: Option<u64>, conns: &[(bool, u8)]| Case { keepalive, conns: conns.iter().map(|(fail, version)| Conn { fail: *fail, version: *version }).collect() };
